@@ -28,16 +28,25 @@ def main(path):
         print(r.stderr[-1500:])
         print('violation %s on the current tree' % ('REPRODUCES' if r.returncode != 0 else 'does not reproduce'))
         return 1 if r.returncode != 0 else 0
-    r, err = R.build_and_run(d['cpp'], wd, 'replay')
+    sanitize = bool(d.get('sanitize')) or 'fsanitize' in d['cpp'][:200] or '_GLIBCXX_ASSERTIONS' in d['cpp'][:200]
+    r, err = R.build_and_run(d['cpp'], wd, 'replay', sanitize=sanitize)
     if err:
         print('build/run error:', err)
         return 2
     print('recorded native output:', d.get('native_output'))
-    print('fresh native output   :', {k: [str(x) for x in v] for k, v in R.parse_out(r.stdout).items()})
+    print('recorded mismatch     :', d.get('mismatch'))
+    print('fresh native output   :', r.stdout[-1500:].rstrip())
     if r.stderr.strip():
         print('stderr:', r.stderr[-1000:])
-    print('recorded mismatch     :', d.get('mismatch'))
-    fresh = {k: [str(x) for x in v] for k, v in R.parse_out(r.stdout).items()}
-    same = fresh == d.get('native_output')
-    print('violation %s on the current tree' % ('REPRODUCES' if same else 'output differs from the recorded run'))
-    return 1 if same else 0
+    print('exit code             :', r.returncode)
+    # a replay program either reports by itself (MISMATCH / EXCEPTION lines, abnormal termination under sanitizers), or prints
+    # raw values that are compared with the values recorded when the violation was found
+    self_reporting = 'MISMATCH' in d['cpp'] or 'EXCEPTION' in d['cpp'] or sanitize
+    if self_reporting:
+        rep = 'MISMATCH' in r.stdout or 'EXCEPTION' in r.stdout or r.returncode != 0
+    else:
+        rec_out = d.get('native_output')
+        fresh = {k: [str(x) for x in v] for k, v in R.parse_out(r.stdout).items()}
+        rep = (fresh == rec_out) if isinstance(rec_out, dict) else (r.stdout.strip() == str(rec_out).strip())
+    print('violation %s on the current tree' % ('REPRODUCES' if rep else 'does not reproduce (the recorded failing behaviour is gone)'))
+    return 1 if rep else 0
